@@ -231,10 +231,29 @@ def effects(N, syms=None):
                 if guards[:len(own)] == own:
                     guards = guards[len(own):]      # relative to where the local is declared
                 out.append({"lid": lid, "name": N.defs.get(lid, (None, None, {}))[2].get("name"), "kind": kind, "node": node,
-                            "guards": list(N.guards_term(guards))})
+                            "guards": list(N.guards_term(guards)), "gterms": list(N.guard_terms(guards))})
         return out
     finally:
         N.syms, N._memo = old, memo
+
+
+def guard_condition(gterms):
+    """the conjunction of `if` / match-arm guards as one normalised condition term (None for the empty list, i.e. `true`)"""
+    from .norm import _let, _not
+    c = None
+    for g in gterms:
+        if g[1] == "if":
+            x = g[3] if g[2] else _not(g[3])
+        elif g[1] == "arm":
+            pat = g[3]
+            if pat in ("v1::None", "Option::None"):
+                x = _not(_let("v1::Some($)", g[2]))
+            else:
+                x = _let(pat, g[2])
+        else:
+            return ("opaque", "loop-guard")
+        c = x if c is None else ("op", "&&", [c, x])
+    return c
 
 
 def owners(ctx, path, crates=LIB, _depth=0):
